@@ -103,6 +103,9 @@ type sessOut struct {
 	// per further call, results / errors / wires of every party
 	wires0 []*big.Int
 	mres   [][][]*big.Int
+	// bytes flushed to the online connections (Stats().Sent) right before the
+	// Run calls start (snap mode) and after every party's Run has returned
+	sent0, sent1 []uint64
 	mErr   [][]error
 	mwires [][]*big.Int
 }
@@ -360,12 +363,20 @@ func runSession(cfg *sessCfg) *sessOut {
 			so.snaps[p] = so.nws[p].Pool.VerifSnapshot()
 			so.dealtN = append(so.dealtN, atomic.LoadUint64(&so.nws[p].Pool.NumTriples))
 		}
+		for p := 0; p < n; p++ {
+			on, _ := so.nws[p].Stats()
+			so.sent0 = append(so.sent0, on.Sent.Load())
+		}
 		for _, p := range cfg.order {
 			wg.Add(1)
 			go func(p int) { defer wg.Done(); guard(p, run, so.runErr)() }(p)
 		}
 		if !wait(&wg, "run") {
 			return so
+		}
+		for p := 0; p < n; p++ {
+			on, _ := so.nws[p].Stats()
+			so.sent1 = append(so.sent1, on.Sent.Load())
 		}
 	}
 	for p := 0; p < n; p++ {
